@@ -570,6 +570,41 @@ static int sys_cmd (char *line)
       vh_out ("restarted %llu", (unsigned long long) config_id);
       return 1;
     }
+  if (!strcmp (tok[0], "corrupt") && n >= 4)
+    {
+      /* corrupt <prog.c> trunc <permille> | flip <permille> <xor byte>: damage the saved binary, keep its mtime
+         (exploration of robustness: not part of the modelled histories) */
+      char path[512];
+      struct stat st;
+      bin_path (path, sizeof path, tok[1]);
+      if (stat (path, &st) == 0 && st.st_size > 0)
+        {
+          long size = (long) st.st_size, at = size * atol (tok[3]) / 1000;
+          unsigned char *data = (unsigned char *) malloc (size);
+          FILE *f = fopen (path, "rb");
+          if (f && fread (data, 1, size, f) == (size_t) size)
+            {
+              fclose (f);
+              if (at >= size)
+                at = size - 1;
+              if (!strcmp (tok[2], "trunc"))
+                size = at;
+              else if (n >= 5)
+                data[at] ^= (unsigned char) (atoi (tok[4]) ? atoi (tok[4]) : 1);
+              f = fopen (path, "wb");
+              fwrite (data, 1, size, f);
+              fclose (f);
+              set_mtime (path, (long) st.st_mtime);
+              vh_out ("corrupted %s %s at=%ld of=%ld", tok[1], tok[2], at, (long) st.st_size);
+            }
+          else if (f)
+            fclose (f);
+          free (data);
+        }
+      else
+        vh_out ("corrupt-nofile %s", tok[1]);
+      return 1;
+    }
   if (!strcmp (tok[0], "calls"))
     {
       /* calls <fn>[:arg[:arg]]...  functions applied on the top object after every reload */
